@@ -188,6 +188,8 @@ static void enumerateAll(bool thorough, const std::function<void(const Spec &)> 
       {{F_maxNbSteps, 3}, {F_orderingWidth, 5.0}},       // rejected by legalization.check
       {{F_maxNbSteps, -1}},                              // rejected by global.check
       {{F_maxNbSteps, 3}, {F_nbPasses, -1}},             // rejected by detailed.check
+      {{F_maxNbSteps, 3}, {F_nbPasses, 0}},              // valid corner: no optimisation pass
+      {{F_maxNbSteps, 2}, {F_nbPasses, 1}, {F_shiftMaxNbCells, 0}, {F_nbInitialSteps, 1}},  // valid corners
   };
   for (auto &c : circuits)
     for (int stage = 0; stage < 3; ++stage)
@@ -207,7 +209,7 @@ int main(int argc, char **argv) {
   c.level = "fault_enumeration";
   c.rule =
       "for every (circuit in {4 feasible global-placement circuits, over-full, unsatisfiable polarity}(+1/7 of the GP alphabet in thorough) x stage in "
-      "{placeGlobal, legalize, placeDetailed} x parameter set in {2 valid, 3 rejected}): dry run counting K callbacks, then K+1 runs with the callback "
+      "{placeGlobal, legalize, placeDetailed} x parameter set in {4 valid incl. the corners nbPasses=0 / shiftMaxNbCells=0 / nbInitialSteps=1, 3 rejected}): dry run counting K callbacks, then K+1 runs with the callback "
       "throwing at index k (none, 0..K-1); in every callback all seven guarded setters are attempted; after the call ended every setter, check() and each "
       "of the three stages as a follow-up call are exercised and compared with the same call on a fresh object; an evaluation = one fault point; "
       "non-trivial = the run has at least one callback";
